@@ -283,6 +283,11 @@ func genFlips(c *vlib.Ctx) {
 				continue
 			}
 			base := honest(c, a, headCid, topic)
+			// ECDSA signatures are randomised and their DER length varies (70..72): keep the most
+			// common one so that the set of flipped offsets is the same on every run
+			for try := 0; typ == "ecdsa" && len(base.Sig) != 71 && try < 200; try++ {
+				base = honest(c, a, headCid, topic)
+			}
 			data := encode(base)
 			n := 1
 			if c.Thorough() {
